@@ -254,3 +254,52 @@ def where(body, bb=None):
     if sp:
         return span_str(sp)
     return body.loc()
+
+
+def upvar_name(body, idx):
+    """source name of closure capture idx; precise captures are named `a__b__field`"""
+    for n, p in body.dbg:
+        if isinstance(p, list) and p[0] == 1 and any(isinstance(e, list) and e[0] == "f" and e[1] == idx for e in p[1:]):
+            return n
+    return None
+
+
+def cond_name(body, e):
+    """the option/flag name a (possibly negated) bool expression reads: last field name, parameter/local debug name,
+    or the last component of a captured variable's name. Returns (name, negated) or (None, False)"""
+    neg = False
+    while e[0] == "un" and e[1] == "Not":
+        e = e[2]
+        neg = not neg
+    if e[0] != "path":
+        return None, neg
+    root, fields = e[1], e[2]
+    if fields:
+        last = fields[-1]
+        if not last.isdigit():
+            return last, neg
+        if body.is_closure() and root == ("arg", 1) and fields[0].isdigit():
+            n = upvar_name(body, int(fields[0]))
+            return (n.split("__")[-1] if n else None), neg
+        return None, neg
+    if root[0] in ("arg", "local"):
+        ns = body.local_names().get(root[1], [])
+        return (ns[0].split("__")[-1] if ns else None), neg
+    return None, neg
+
+
+def force_flag(flag, val):
+    """forced-successor function for pathsens: switches on the bool flag named `flag` take the edge for `val`"""
+    def fz(body, sw):
+        tt = body.term(sw)
+        if tt["k"] != "switch" or tt["discr_ty"] != "bool":
+            return None
+        nm, neg = cond_name(body, flow.expr_of(body, tt["discr"]))
+        if nm != flag:
+            return None
+        zero = [x for v, x in tt["targets"] if v == "0"]
+        if not zero:
+            return None
+        want_true = (val != neg)
+        return tt["otherwise"] if want_true else zero[0]
+    return fz
